@@ -540,7 +540,7 @@ func (ck *Check) filterPredicates(rule func(n int) string) {
 	}
 	// R1
 	if fn := closureOf("NewPodAffinityFilterFunc"); fn != nil {
-		ck.affinityFilter(rule(1), fn, isDS, sp.Func("unwrapNodeSelectorTerms"))
+		ck.affinityFilter(rule(1), fn, isDS, ck.A.Unwrap)
 	}
 	// R2
 	if fn := closureOf("NewPodDefaultFilterFunc"); fn != nil {
@@ -849,7 +849,7 @@ func (ck *Check) affinityFilter(rule string, fn, isDS, unwrap *ssa.Function) {
 		}
 	}
 	joined := strings.Join(overs, " | ")
-	for _, need := range []string{"unwrapNodeSelectorTerms(pod)", "MatchExpressions", "Values"} {
+	for _, need := range []string{unwrap.Name() + "(pod)", "MatchExpressions", "Values"} {
 		if need == "Values" && valuesViaHelper {
 			continue // the values are searched by a membership helper
 		}
